@@ -151,7 +151,8 @@ enum Sub {
   /// than its fragments need); 0 = complete
   Frag { w: usize, sn: i64, start: u32, count: u16, short: u16 },
   Hb { w: usize, first: i64, last: i64, count: i32, fin: bool },
-  Gap { w: usize, start: i64, base: i64, bits: BTreeSet<i64>, num_bits: u32 },
+  /// `dirty`: the padding bits behind numBits in the last bitmap word are set (they mean nothing)
+  Gap { w: usize, start: i64, base: i64, bits: BTreeSet<i64>, num_bits: u32, dirty: bool },
 }
 
 #[derive(Clone, Debug)]
@@ -430,14 +431,15 @@ pub fn run(focus: Focus, choices: &[u8], _strict: bool) -> Outcome {
             1 => start + 1,
             _ => start + 1 + c.pick(6) as i64,
           };
-          let num_bits = [0u32, 1, 8, 33, 256][c.pick(5)];
+          let num_bits = [0u32, 1, 8, 33, 256, 2, 5, 31][c.pick(8)];
           let mut bits = BTreeSet::new();
           for k in 0..num_bits.min(40) {
             if c.chance(60) {
               bits.insert(base + i64::from(k));
             }
           }
-          Sub::Gap { w, start, base, bits, num_bits }
+          let dirty = num_bits % 32 != 0 && c.chance(70);
+          Sub::Gap { w, start, base, bits, num_bits, dirty }
         }
       };
       subs.push((sub, le, explicit));
@@ -658,8 +660,13 @@ pub fn run(focus: Focus, choices: &[u8], _strict: bool) -> Outcome {
                 });
               }
             }
-            Sub::Gap { w, start, base, bits, num_bits } => {
-              let words = wire::bitmap_words(*base, *num_bits, bits);
+            Sub::Gap { w, start, base, bits, num_bits, dirty } => {
+              let mut words = wire::bitmap_words(*base, *num_bits, bits);
+              if *dirty && *num_bits % 32 != 0 && !words.is_empty() {
+                let lastw = words.len() - 1;
+                words[lastw] |= (1u32 << (32 - *num_bits % 32)) - 1;
+                o.label("gap-with-dirty-padding-bits");
+              }
               let (f, b) = wire::gap_body(*le, rid, writers[*w].eid, *start, *base, *num_bits, &words);
               wire::push_submessage(&mut dg, wire::GAP, f, &b, None);
               let wm = &mut writers[*w];
